@@ -603,10 +603,15 @@ func TestC05Slow(t *testing.T) {
 	em := NewEmitter()
 	defer em.Close()
 	idx := 0
-	for _, n := range []int{4, 5, 7} {
+	// far behind: round limits of a per-call backlog (16, 64, 128) + 1, 2 more and beyond; the transport's own queue is
+	// unbounded, so everything is in flight inside the client or the transport when A starts to drain
+	for _, n := range []int{4, 5, 7, 17, 18, 65, 66, 67, 68, 70, 129, 130, 131, 200} {
 		for _, d := range []time.Duration{10 * time.Millisecond, 100 * time.Millisecond, time.Second} {
 			for pat := 0; pat < 4; pat++ { // where the clock advances: after every delivery / after the 2nd / before the drain only / during the drain
 				for _, withB := range []bool{false, true} {
+					if n > 7 && (d != 100*time.Millisecond || pat == 1) {
+						continue
+					}
 					if !want(idx) {
 						idx++
 						continue
